@@ -1,1 +1,22 @@
-fn main() { eprintln!("engine not built yet"); std::process::exit(2); }
+//! C18 — f80 arithmetic correctly rounded, IEEE comparisons.
+//!
+//! Exhaustive input enumeration (form I): every pair of a boundary set B of f64 bit patterns through every
+//! operation of `rlib_f80::f80`, then every pair of a fixed subset of the first-level RESULTS (full 64-bit
+//! significands), each compared with a software model of x87 double-extended arithmetic (`soft.rs`).
+
+#[cfg(target_arch = "x86_64")]
+mod engine;
+#[cfg(target_arch = "x86_64")]
+mod soft;
+
+#[cfg(target_arch = "x86_64")]
+fn main() {
+    engine::main()
+}
+
+#[cfg(not(target_arch = "x86_64"))]
+fn main() {
+    let args = vcore::Args::parse();
+    let run = vcore::Run::new(&args, "f80", "exploration");
+    run.machinery_failure("rlib_f80 is x87 inline assembly; this engine can only run on x86-64")
+}
